@@ -64,6 +64,18 @@ def gen(rng, tier):
         ln = 2 + 16 * rng.randrange(1, 16)
         cs.append(Case(f"msmpprecrypt {hexs(rb(rng, ln))} {hexs(secret(rng))} {hexs(secret(rng))} {hexs(rb(rng,16))} {hexs(rb(rng,16))}",
                        kind="msmpp", len=ln, valid=True))
+    # both hops sharing one secret ("radsec" on two TLS legs): re-encryption is still needed, the authenticators differ
+    for _ in range(200 if tier == "quick" else 5000):
+        sec = secret(rng)
+        ln = 16 * rng.randrange(1, 9)
+        salted = rng.random() < 0.5
+        osalt = rb(rng, 2) if salted else b""
+        nsalt = rb(rng, 2) if salted else b""
+        cs.append(Case(f"pwdrecrypt {hexs(rb(rng, ln))} {hexs(sec)} {hexs(sec)} {hexs(rb(rng,16))} {hexs(rb(rng,16))} {hexs(osalt)} {hexs(nsalt)}",
+                       kind="pwd-same-secret", len=ln, valid=True))
+        ln = 2 + 16 * rng.randrange(1, 16)
+        cs.append(Case(f"msmpprecrypt {hexs(rb(rng, ln))} {hexs(sec)} {hexs(sec)} {hexs(rb(rng,16))} {hexs(rb(rng,16))}",
+                       kind="msmpp-same-secret", len=ln, valid=True))
     # hash reference vectors (Lean md5 / hmac-md5 vs nettle)
     for _ in range(300 if tier == "quick" else 3000):
         n = rng.choice([0, 1, 55, 56, 57, 63, 64, 65, 119, 120, 128, rng.randrange(0, 600)])
@@ -97,8 +109,14 @@ def build_hidden(exe, rng, idx):
         k = rng.randrange(h.ncl)
         r = rng.random()
         if r < 0.45:
-            plain = R.rand_bytes(rng, rng.choice([1, 8, 15, 16, 17, 31, 32, 33, 64, 100, 128]))
-            h.rq(k, h.make_request(k, code=1, user=b"u@x", extra=[], pwd=plain))
+            if rng.random() < 0.2:
+                # a User-Password whose hidden length is not 16..128 in steps of 16 (empty, short, odd, too long): the request is dropped
+                raw = R.rand_bytes(rng, rng.choice([0, 0, 1, 15, 17, 31, 130, 144, 253]))
+                h.rq(k, h.make_request(k, code=1, user=b"u@x", extra=[(2, raw)], pwd=False))
+                h.tag("invalid-pwd-length")
+            else:
+                plain = R.rand_bytes(rng, rng.choice([1, 8, 15, 16, 17, 31, 32, 33, 64, 100, 128]))
+                h.rq(k, h.make_request(k, code=1, user=b"u@x", extra=[], pwd=plain))
             h.tag("hidden")
         elif h.outstanding:
             ent = h.outstanding.pop(rng.randrange(len(h.outstanding)))
